@@ -70,6 +70,8 @@ def classify(f, ops):
     feats = set(f.get("feats", []))
     if "uri-with-quote" in feats:
         return "C06-F3"
+    if "xsi-name" in feats:
+        return "C06-F4"
     if "unprintable-name" in feats or "prefix-named-default" in feats and False:
         return "C06-F2"
     if "ambiguous-name" in feats or "empty-prefix-registered" in feats:
